@@ -79,6 +79,7 @@ pub fn classify(plan: &ProcPlan) -> (bool, Vec<&'static str>) {
     let mut flushed = Q::None;
     let mut streaming = false;
     let mut slow = false;
+    let mut chatty = false;
     let mut format_on_partial = false;
     // 0 = success, 1 = failure exit, 2 = killed, 3 = auto
     let mut end = 0;
@@ -136,6 +137,11 @@ pub fn classify(plan: &ProcPlan) -> (bool, Vec<&'static str>) {
             }
             Op::CloseStdin => stdin_closed = true,
             Op::CloseStdout => {}
+            Op::Stderr(n) => {
+                if *n > 0 {
+                    chatty = true;
+                }
+            }
             Op::Exit(c) => {
                 end = if c & 0xff == 0 { 0 } else { 1 };
                 break;
@@ -186,6 +192,9 @@ pub fn classify(plan: &ProcPlan) -> (bool, Vec<&'static str>) {
     }
     if slow {
         kinds.push("slow");
+    }
+    if chatty {
+        kinds.push("chatty_stderr");
     }
     let mut eligible = true;
     if plan.short_writes {
@@ -438,6 +447,8 @@ pub fn run_case(case: &Case, reference: Option<&RefProgram>, want_log: bool) -> 
         .stack_size(32 << 20)
         .spawn(move || {
             crate::seams::set_thread_entropy(Some(entropy));
+            // polling loops of the code under test (try_wait + sleep) cost no real time
+            crate::seams::set_sleep_hook(Some(Box::new(|_ns| {})));
             let backend = Arc::new(C19Backend {
                 plan: case.proc.clone(),
                 later: case.later.clone(),
@@ -764,6 +775,13 @@ pub fn gen_case(rng: &mut Rng) -> Case {
             }
         },
     }
+    // A formatter talks on stderr: a short warning, or pages of errors, at any point.
+    if proc.spawn == SpawnPlan::Ok && rng.chance(250) {
+        let n = *rng.pick(&[10usize, 500, 5000, 70_000, 300_000]);
+        let at = rng.usize(0, proc.script.len().saturating_sub(1));
+        let at = if rng.chance(400) { 0 } else { at };
+        proc.script.insert(at.min(proc.script.len()), Op::Stderr(n));
+    }
     // Code that retries gets a second formatter process: usually a healthy one, sometimes one
     // that prints nothing, sometimes another failure.
     let mut later = Vec::new();
@@ -828,6 +846,13 @@ pub fn systematic_cases() -> Vec<Case> {
         (
             SpawnPlan::Ok,
             vec![Op::ReadToEof, Op::EmitRef(900), Op::Flush, Op::CloseStdout, Op::Delay(1_000_000), Op::Exit(1)],
+        ),
+        (SpawnPlan::Ok, vec![Op::Stderr(300_000), Op::ReadToEof, Op::Exit(1)]),
+        (SpawnPlan::Ok, vec![Op::Stderr(300_000), Op::Exit(1)]),
+        (SpawnPlan::Ok, vec![Op::ReadToEof, Op::Stderr(300_000), Op::Exit(1)]),
+        (
+            SpawnPlan::Ok,
+            vec![Op::ReadToEof, Op::Stderr(200), Op::Format, Op::Flush, Op::Stderr(70_000), Op::ExitAuto],
         ),
         (SpawnPlan::Ok, vec![Op::ReadToEof, Op::Exit(0)]),
         (SpawnPlan::Ok, vec![Op::Exit(0)]),
@@ -983,6 +1008,7 @@ pub fn minimise(case: &Case, class: &str, cache: &RefCache) -> (Case, u32) {
                 Op::Delay(t) if *t > 1 => vec![Op::Delay(1)],
                 Op::Read(n) if *n > 1 => vec![Op::Read(1), Op::Read(n / 2)],
                 Op::EmitRef(p) if *p > 1 => vec![Op::EmitRef(1), Op::EmitRef(p / 2)],
+                Op::Stderr(n) if *n > 1 => vec![Op::Stderr(1), Op::Stderr(n / 2)],
                 Op::Exit(c) if *c != 1 && *c != 0 => vec![Op::Exit(1)],
                 Op::Kill(s) if *s != libc::SIGKILL => vec![Op::Kill(libc::SIGKILL)],
                 _ => vec![],
@@ -1050,6 +1076,14 @@ fn real_rustfmt_block(cache: &RefCache, limit_opts: usize) -> RealFmtResult {
         include_path: None,
         options: Opts::plain(),
     });
+    // a large module whose embedded source is full of non-ASCII text, tabs and quotes
+    if let Some(seed) = (0..256u64).find(|s| corpus::gen_shader(*s, 8).contains('手')) {
+        jobs.push(Job {
+            shader: ShaderRef::Gen { seed, scale: 8 },
+            include_path: None,
+            options: Opts::plain(),
+        });
+    }
     jobs.push(Job {
         shader: ShaderRef::Inline {
             source: "override ova: f32 = 1.0;\noverride ovb: u32 = 2u;\noverride ovc: bool = true;\n@fragment fn fs_main() {}".into(),
@@ -1100,7 +1134,7 @@ fn real_rustfmt_block(cache: &RefCache, limit_opts: usize) -> RealFmtResult {
     result
 }
 
-const REAL_RUSTFMT_TIMEOUT: std::time::Duration = std::time::Duration::from_secs(90);
+const REAL_RUSTFMT_TIMEOUT: std::time::Duration = std::time::Duration::from_secs(30);
 
 /// Run one fault-free job against the real rustfmt in a fresh process; (class, detail, formatted).
 fn real_rustfmt_job(exe: &std::path::Path, job: &Job) -> (String, String, bool) {
